@@ -65,6 +65,11 @@ def msg_class(msg, op):
     return m[:48]
 
 
+ALIAS_OPS = {"vnacal_add_calibration_own_name": "vnacal_add_calibration",
+             "vnadata_set_format_own": "vnadata_set_format",
+             "vnacal_save_own_filename": "vnacal_save"}
+
+
 def contract(res, text, part, must_fail=None, usage=None, where=""):
     """monitor 1 on every event of one case"""
     cnt = part["counters"]
@@ -74,6 +79,11 @@ def contract(res, text, part, must_fail=None, usage=None, where=""):
         if "ret" not in ev:
             continue
         op = ev["op"]
+        if op in ALIAS_OPS:
+            # harness ops that call a documented function with a string the
+            # library returned itself: judged by that function's contract
+            op = ALIAS_OPS[op]
+            ev = dict(ev, op=op)
         if op not in ET.TABLE and op not in ET.QUIET_OBSERVERS:
             if op not in ET.DRIVER_OPS:
                 cnt["untabled:" + op] = cnt.get("untabled:" + op, 0) + 1
